@@ -11,6 +11,7 @@
 package pool
 
 import (
+	"encoding/binary"
 	"fmt"
 	"runtime"
 	"sort"
@@ -939,6 +940,70 @@ func runHistory(o *hx.Out, g *hx.Rng, c cfg, tier string, perEvent bool) {
 
 // Run: first the sanitizer self-check and the synthetic event sequences (differential test of
 // the Go sanitizer against Pool.step, including every finding kind), then real histories.
+// closeDuringCreate (C15, fixed scenario): Listener.Close runs between the listener's "am I closed?"
+// test and the moment the new session enters the accept backlog.  The interleaving is forced from the
+// inside: the source address of the datagram is a net.Addr whose String() — called by packetInput for
+// the session table — closes the listener at its k-th call.  Whatever k is, nothing may be left in the
+// backlog afterwards: nobody could accept or close such a session, its goroutine and update callback
+// would live for ever.
+type hookAddr struct {
+	s  string
+	n  *int
+	at int
+	f  func()
+}
+
+func (a hookAddr) Network() string { return "mem" }
+func (a hookAddr) String() string {
+	*a.n++
+	if *a.n == a.at && a.f != nil {
+		a.f()
+	}
+	return a.s
+}
+
+func closeDuringCreate(o *hx.Out, g *hx.Rng) {
+	for at := 1; at <= 4; at++ {
+		sch := &kcp.TimedSched{}
+		kcp.SystemTimedSched = sch
+		pump := &pumper{sch: sch}
+		nw := newMemNet(g.Fork())
+		lc := nw.listen("S")
+		l, err := kcp.ServeConn(nil, 0, 0, lc)
+		if err != nil {
+			panic(err)
+		}
+		dg := make([]byte, 24+5)
+		binary.LittleEndian.PutUint32(dg, 0x5151)
+		dg[4] = 81
+		binary.LittleEndian.PutUint16(dg[6:], 32)
+		binary.LittleEndian.PutUint32(dg[20:], 5)
+		copy(dg[24:], "hello")
+		calls := 0
+		kcp.VerifListenerPacketInput(l, dg, hookAddr{s: "peer-close-during-create", n: &calls, at: at, f: func() { l.Close() }})
+		o.Count(fmt.Sprintf("close-during-create:k=%d:string-calls=%d", at, calls))
+		l.Close()
+		un, _ := kcp.VerifListenerBacklog(l)
+		for k := 0; k < 4; k++ {
+			pump.round()
+		}
+		if un > 0 || len(pump.pending) > 0 {
+			o.Violate(hx.Violation{Kind: "leak-unaccepted-session", Detail: fmt.Sprintf("Listener.Close at the %d-th String() call of the source address inside packetInput (between the closed-test and the hand-over to the backlog): %d session(s) left in the backlog of the closed listener, %d update callback(s) still re-queueing themselves", at, un, len(pump.pending)),
+				Replay: []string{"ServeConn(nil, 0, 0, conn); packetInput(PUSH sn 0 conv 0x5151 'hello', from an address whose String() calls Listener.Close at its k-th call); then VerifListenerBacklog and three scheduler rounds"}})
+			// clean up so that later histories start clean
+			for k := 0; k < 8; k++ {
+				if s, err := l.AcceptKCP(); err == nil {
+					s.Close()
+				} else {
+					break
+				}
+			}
+			pump.round()
+		}
+		lc.Close()
+	}
+}
+
 func Run(o *hx.Out, g *hx.Rng, tier string) {
 	o.Res.Rule = "a case is one traffic history (cipher x FEC x faults x scenario x close order) or one synthetic get/put/use sequence; distinct = distinct configurations / sequences; non-trivial = at least one pool event"
 	saved := kcp.SystemTimedSched
@@ -955,7 +1020,10 @@ func Run(o *hx.Out, g *hx.Rng, tier string) {
 	}
 	runtime.GC()
 	runtime.GC() // empties the sync.Pool (the synthetic sequences put buffers twice on purpose)
+	closeDuringCreate(o, g.Fork())
+	runtime.GC()
 	kcp.VerifPoolReset()
+	goroutineBase, _ = waitNoGoroutines(0, 300*time.Millisecond)
 	goroutineBase, _ = kcpGoroutines()
 	start := time.Now()
 	perEventBudget := 250000
